@@ -1,5 +1,7 @@
 import Just.Json
 import Just.Model.Quote
+import Just.Model.Path
+import Just.Model.Determinism
 import Just.Generated.Tables
 import Just.Model.Lexer
 import Just.Model.Render
@@ -113,6 +115,16 @@ def handleDefine (j : Json) : Except String Json := do
   let av ← j.getObjValAs? Bool "allowVars"
   return Json.mkObj [("accepts", toJson (Define.accepts ar av items vars))]
 
+/-- {"op":"table","keys":[..]} → the key order of the `Table` after inserting the keys in the given order -/
+def handleTable (j : Json) : Except String Json := do
+  let keys : List String ← fromJson? (← j.getObjVal? "keys")
+  return Json.mkObj [("order", toJson (Determinism.keysOf (Determinism.build (keys.map (fun k => (k, ()))))))]
+
+/-- {"op":"clean","p":S} → `clean(p)` and `Path::new(p).lexiclean()` as text -/
+def handleClean (j : Json) : Except String Json := do
+  let p ← j.getObjValAs? String "p"
+  return Json.mkObj [("clean", String.ofList (Path.cleanFn p.toList)), ("lexiclean", String.ofList (Path.lexiclean p.toList))]
+
 def handleWorkdir (j : Json) : Except String Json := do
   let c : Workdir.Ctx ← fromJson? (← j.getObjVal? "ctx")
   let a : Workdir.Attrs ← fromJson? (← j.getObjVal? "attrs")
@@ -149,7 +161,18 @@ def handleUnstable (j : Json) : Except String Json := do
     | "summary" => .summary
     | "fmt" => .fmt
     | _ => .other
-  return Json.mkObj [("proceeds", toJson (Unstable.proceeds flag env cmd m)),
+  -- justfiles tried before this one through `set fallback` (innermost first): {"root":…, "fallback":B}, none has the recipe
+  let below : List Unstable.Level ← match j.getObjVal? "below" with
+    | .ok (.arr a) => a.toList.mapM (fun lj => do
+        let r ← unstableModuleFromJson (← lj.getObjVal? "root")
+        let fb ← lj.getObjValAs? Bool "fallback"
+        pure (⟨r, false, fb⟩ : Unstable.Level))
+    | _ => pure []
+  let outcome := match Unstable.runFallback flag env (below ++ [⟨m, true, false⟩]) 0 with
+    | .refused k => s!"refused:{k}"
+    | .ran k => s!"ran:{k}"
+    | .unknownRecipe => "unknown"
+  return Json.mkObj [("proceeds", toJson (Unstable.proceeds flag env cmd m)), ("fallback", toJson outcome),
     ("docTruthy", toJson (Unstable.envTruthyDoc env)), ("implTruthy", toJson (Unstable.envTruthyImpl env))]
 
 def handleAnalyze (j : Json) : Except String Json := do
@@ -503,6 +526,8 @@ def handle (line : String) : Json :=
       | "quote" => handleQuote j
       | "channels" => handleChannels j
       | "define" => handleDefine j
+      | "table" => handleTable j
+      | "clean" => handleClean j
       | "args" => handleArgs j
       | "childenv" => handleChildEnv j
       | "workdir" => handleWorkdir j
